@@ -2,15 +2,24 @@ import OsacaVerif.Model.LCD
 import OsacaVerif.Spec.Deps
 import OsacaVerif.Lemmas.Chain
 import OsacaVerif.Lemmas.CritPath
+import OsacaVerif.Lemmas.CpRepaired
 import OsacaVerif.Props.C03
 /-
   C04 — Critical path is the longest latency-weighted dependency chain.
 
-  The pinned code does NOT satisfy the property (known finding D7, see DESIGN.md §6):
-  `get_critical_path` picks the path by edge weights only and overwrites the per-line CP latency of an
-  instruction that is entered through its own load node.  The model `LCD.cpCandidates` mirrors the
-  code as it is; what is proved is the negative result on a concrete witness (replayed on the real
-  code by the check) and the parts that do hold.
+  The pinned code is now REPAIRED (`fix: critical path under-reports …`): `get_critical_path` is one
+  pass over the lines (`LCD.cpTable` / `LCD.cpStep` / `LCD.cpTotal`, marking in `Model/CpMark.lean`:
+  `LCD.cpPath`, `LCD.cpMarks`).  For it the full property is proved, for kernels of any length
+  (second half of this file): `cpTotal_eq_longestChain`, `cp_is_longest`, `cp_ge_every_instr`,
+  `cp_ge_every_chain`, `cp_lines_form_chain`, `cp_lines_sum`, `cp_marked_chain_is_longest`.
+
+  The theorems about `LCD.cpCandidates` / `LCD.cpReport` (first half) model the code as it was BEFORE
+  the repair (known finding D7, DESIGN.md §6: the path was picked by edge weights only and the
+  per-line CP latency of an instruction entered through its own load node was overwritten).  They
+  are kept as the witness for the unrepaired variant: `cp_underreports` (the old total is strictly
+  too small on a concrete kernel, replayed on the real code by the check) and `cp_never_overreports`
+  (the defect was one-sided).  `Spec.longestChain` is the oracle of both halves
+  (`longestChain_is_max`: it IS the maximum chain length).
 -/
 namespace OsacaVerif.Props.C04
 open OsacaVerif OsacaVerif.DG OsacaVerif.LCD OsacaVerif.Spec
@@ -28,8 +37,9 @@ def witness : List Ins :=
       [r "xmm0"] [] 7 (some 3) true,
     mkIns 2 [r "xmm0"] [.mem ⟨some ⟨[], Text.ofString "rax", false, false⟩, none, 1, none, false, false, [1]⟩] [] 0 (some 0) false ]
 
-/-- **the full property is false of the pinned code** (`cp_underreports`): the reported total of the
-    witness kernel is 3, although the multiply alone takes 7 cycles. -/
+/-- **the full property is false of the code before the repair** (`cp_underreports`): the total the
+    unrepaired variant reports for the witness kernel is 3, although the multiply alone takes 7 cycles
+    (the repaired code reports 7, see the examples after `cpTotal_eq_longestChain`). -/
 theorem cp_underreports :
     (cpCandidates witness (create .x86 false {} witness)).map (fun c => (c.map (·.2)).sum) = [3] ∧
     longestChain [⟨1, 7, 4⟩, ⟨2, 0, 0⟩] [⟨1, 2, 3⟩] = 7 := by
@@ -98,7 +108,7 @@ example : (Chain.mk 1 [⟨1, 2, 3⟩]).Valid [⟨1, 7, 4⟩, ⟨2, 0, 0⟩] [⟨
     (Chain.mk 1 [⟨1, 2, 3⟩]).len [⟨1, 7, 4⟩, ⟨2, 0, 0⟩] = 7 ∧
     longestChain [⟨1, 7, 4⟩, ⟨2, 0, 0⟩] [⟨1, 2, 3⟩] = 7 := by decide +kernel
 
-/-! ### what the pinned `get_critical_path` reports, against the chains of the property
+/-! ### what the UNREPAIRED `get_critical_path` reports, against the chains of the property
     (`Lemmas/CritPath.lean`)
 
   `isPath es p`: consecutive nodes of `p` are linked by an edge of `es` (a genuine path);
@@ -276,7 +286,7 @@ theorem cpCandidates_le_longest (k : List Ins) (hk : WFKernel k) (hst : NonnegSt
     · exact hin e he
 
 /-- **`cp_never_overreports`**: on the dependency graph OSACA builds (`create`), for every kernel with
-    increasing line numbers and `latWoLoad ≤ lat`, every possible result of the pinned
+    increasing line numbers and `latWoLoad ≤ lat`, every possible result of the unrepaired
     `get_critical_path` has a total ≤ the longest latency-weighted dependency chain.  Together with
     `cp_underreports` (strictly smaller on the witness): the defect is one-sided. -/
 theorem cp_never_overreports (isa : Isa) (fd : Bool) (par : Params) (k : List Ins) (hk : WFKernel k)
@@ -313,5 +323,282 @@ example :
     pathW (edgeW es) p + latOfK witness (lastLine p) = 3 ∧
     (chainOf es p).len (infosOf witness) = 7 := by
   decide +kernel
+
+/-! ### the REPAIRED `get_critical_path` (`LCD.cpTable` / `LCD.cpStep` / `LCD.cpTotal`,
+    `Lemmas/CpRepaired.lean`)
+
+  Hypotheses (all decidable): `WFKernel k` — strictly increasing line numbers; `LoadsKnown k` —
+  `latency_wo_load` is known wherever an instruction has a separate load node; `NonnegStages k` —
+  `latWoLoad ≤ lat` there; `NonnegLats k`, `NonnegParams par` — non-negative latencies and model
+  parameters.  Graph-generic forms take instead `NonnegWeights es` (all edge weights ≥ 0) and
+  `LoadStagesAgree k es` (the edge from the load node of a line carries that instruction's load
+  stage); `create_nonnegWeights` / `create_loadStagesAgree` establish them for `DG.create`. -/
+
+/-- **`cpTotal_eq_longestChain`, graph-generic**: for ANY kernel (any length) and ANY edge list with
+    non-negative weights whose load-node edges carry the load stages, the total the repaired code
+    reports is the value of the declarative longest-chain programme — the two tables agree row by row
+    (`cpTable_eq_table`: `carried.1 = b`, `longer.map (·.1) = ext`). -/
+theorem cpTotal_eq_longestChain_graph (k : List Ins) (es : List Edge) (hw : NonnegWeights es)
+    (hls : LoadStagesAgree k es) :
+    cpTotal k es = longestChain (infosOf k) (wedgesOf es) :=
+  cpTotal_eq_longestChain_of k es hw hls
+
+/-- **`cpTotal_eq_longestChain`**: on the dependency graph OSACA builds, for every kernel with
+    increasing line numbers, known load latencies and non-negative latencies, the critical-path total
+    of the repaired `get_critical_path` EQUALS the oracle `Spec.longestChain` (which is the maximum
+    chain length, `longestChain_is_max`). -/
+theorem cpTotal_eq_longestChain (isa : Isa) (fd : Bool) (par : Params) (k : List Ins) (hk : WFKernel k)
+    (hkn : LoadsKnown k) (hst : NonnegStages k) (hlat : NonnegLats k) (hpar : NonnegParams par) :
+    cpTotal k (create isa fd par k) = longestChain (infosOf k) (wedgesOf (create isa fd par k)) :=
+  cpTotal_eq_longestChain_of k _ (create_nonnegWeights isa fd par k hst hlat hpar)
+    (create_loadStagesAgree isa fd par k hk hkn)
+
+-- non-vacuity: the witness kernel of the old defect satisfies every hypothesis, and the repaired
+-- code reports 7 = load stage 4 + edge 3 + latency 0 (the old code reported 3)
+example : WFKernel witness ∧ LoadsKnown witness ∧ NonnegStages witness ∧ NonnegLats witness ∧
+    NonnegParams {} := by decide +kernel
+example : NonnegWeights (create .x86 false {} witness) ∧
+    LoadStagesAgree witness (create .x86 false {} witness) := by decide +kernel
+example : cpTotal witness (create .x86 false {} witness) = 7 ∧
+    longestChain (infosOf witness) (wedgesOf (create .x86 false {} witness)) = 7 := by decide +kernel
+
+/-- a kernel whose first instruction has a load node but no `latency_wo_load` -/
+def unknownLoad : List Ins :=
+  [ mkIns 1 [.mem ⟨some ⟨[], Text.ofString "rax", false, false⟩, none, 1, none, false, false, [1]⟩]
+      [r "xmm0"] [] 7 none true,
+    mkIns 2 [r "xmm0"] [r "xmm1"] [] 0 (some 0) false ]
+
+/-- a kernel with a negative latency -/
+def negLat : List Ins :=
+  [ mkIns 1 [] [r "xmm0"] [] (-1) none false, mkIns 2 [r "xmm0"] [r "xmm1"] [] 5 none false ]
+
+-- the hypotheses are needed (model as written): (a) without `LoadsKnown` the model's load edge weighs
+-- `lat − 0` while the oracle's load stage is 0 (the real code cannot compute `latency − None` at all);
+-- (b) with a negative edge weight `chain_length` adds the negative `longer` value where the longest
+-- chain is the single instruction
+example : ¬ LoadsKnown unknownLoad ∧ WFKernel unknownLoad ∧
+    cpTotal unknownLoad (create .x86 false {} unknownLoad) = 14 ∧
+    longestChain (infosOf unknownLoad) (wedgesOf (create .x86 false {} unknownLoad)) = 7 := by
+  decide +kernel
+example : ¬ NonnegLats negLat ∧ WFKernel negLat ∧ LoadsKnown negLat ∧
+    cpTotal negLat (create .x86 false {} negLat) = 4 ∧
+    longestChain (infosOf negLat) (wedgesOf (create .x86 false {} negLat)) = 5 := by
+  decide +kernel
+
+/-! ### corollaries at the property's wording -/
+
+theorem forwardEdges_create (isa : Isa) (fd : Bool) (par : Params) (k : List Ins) (hk : WFKernel k) :
+    ForwardEdges (create isa fd par k) :=
+  fun e he => C03.edges_forward isa fd par k hk e he
+
+/-- **`cp_is_longest`, graph-generic**: over any forward graph with non-negative weights whose load
+    edges carry the load stages, the reported total is the MAXIMUM of `Chain.len` over all genuine
+    dependency chains: attained by one, dominating all. -/
+theorem cp_is_longest_graph (k : List Ins) (hk : WFKernel k) (hne : k ≠ []) (es : List Edge)
+    (hfw : ForwardEdges es) (hw : NonnegWeights es) (hls : LoadStagesAgree k es) :
+    (∃ c : Chain, c.Valid (infosOf k) (wedgesOf es) ∧ c.len (infosOf k) = cpTotal k es) ∧
+    (∀ c : Chain, c.Valid (infosOf k) (wedgesOf es) → c.len (infosOf k) ≤ cpTotal k es) := by
+  rw [cpTotal_eq_longestChain_of k es hw hls]
+  apply longestChain_is_max
+  · rw [infosOf_lines]; exact nodup_of_sorted _ hk
+  · exact fwdIn_of_forwardEdges k hk es hfw
+  · simpa [infosOf] using hne
+
+/-- **`cp_is_longest`** (the property): for every non-empty kernel with increasing lines, known load
+    latencies and non-negative latencies, the critical-path total of the repaired
+    `get_critical_path` on OSACA's dependency graph is the length of the longest latency-weighted
+    dependency chain — `lat i` for a single instruction, `loadStage i₁ + Σ w + lat iₙ` otherwise:
+    some genuine chain has exactly this length and no genuine chain is longer. -/
+theorem cp_is_longest (isa : Isa) (fd : Bool) (par : Params) (k : List Ins) (hk : WFKernel k)
+    (hkn : LoadsKnown k) (hst : NonnegStages k) (hlat : NonnegLats k) (hpar : NonnegParams par)
+    (hne : k ≠ []) :
+    (∃ c : Chain, c.Valid (infosOf k) (wedgesOf (create isa fd par k)) ∧
+      c.len (infosOf k) = cpTotal k (create isa fd par k)) ∧
+    (∀ c : Chain, c.Valid (infosOf k) (wedgesOf (create isa fd par k)) →
+      c.len (infosOf k) ≤ cpTotal k (create isa fd par k)) :=
+  cp_is_longest_graph k hk hne _ (forwardEdges_create isa fd par k hk)
+    (create_nonnegWeights isa fd par k hst hlat hpar) (create_loadStagesAgree isa fd par k hk hkn)
+
+/-- **`cp_ge_every_chain`**: the reported critical path is never smaller than any dependency chain
+    (also for the empty kernel, which has no chain) -/
+theorem cp_ge_every_chain (isa : Isa) (fd : Bool) (par : Params) (k : List Ins) (hk : WFKernel k)
+    (hkn : LoadsKnown k) (hst : NonnegStages k) (hlat : NonnegLats k) (hpar : NonnegParams par)
+    (c : Chain) (hv : c.Valid (infosOf k) (wedgesOf (create isa fd par k))) :
+    c.len (infosOf k) ≤ cpTotal k (create isa fd par k) := by
+  rw [cpTotal_eq_longestChain isa fd par k hk hkn hst hlat hpar]
+  refine longestChain_ge _ _ ?_ (fwdIn_of_forwardEdges k hk _ (forwardEdges_create isa fd par k hk)) c hv
+  rw [infosOf_lines]; exact nodup_of_sorted _ hk
+
+theorem cp_ge_every_instr_graph (k : List Ins) (hk : WFKernel k) (es : List Edge)
+    (hfw : ForwardEdges es) (hw : NonnegWeights es) (hls : LoadStagesAgree k es) (i : Ins) (hi : i ∈ k) :
+    i.lat ≤ cpTotal k es := by
+  have hnd : ((infosOf k).map (·.line)).Nodup := by rw [infosOf_lines]; exact nodup_of_sorted _ hk
+  have hinfo : (⟨i.line, i.lat, loadStageOf i⟩ : LatInfo) ∈ infosOf k := List.mem_map.mpr ⟨i, hi, rfl⟩
+  have hv := single_valid (infosOf k) (wedgesOf es) _ hinfo
+  have hlen : (Chain.mk i.line []).len (infosOf k) = i.lat := by
+    simp only [Chain.len]
+    exact latOf_eq (infosOf k) hnd _ hinfo
+  rw [cpTotal_eq_longestChain_of k es hw hls, ← hlen]
+  exact longestChain_ge _ _ hnd (fwdIn_of_forwardEdges k hk es hfw) _ hv
+
+/-- **`cp_ge_every_instr`**: the reported critical path is never smaller than the latency of any
+    single instruction of the kernel (what the old code violated: `cp_underreports`) -/
+theorem cp_ge_every_instr (isa : Isa) (fd : Bool) (par : Params) (k : List Ins) (hk : WFKernel k)
+    (hkn : LoadsKnown k) (hst : NonnegStages k) (hlat : NonnegLats k) (hpar : NonnegParams par)
+    (i : Ins) (hi : i ∈ k) : i.lat ≤ cpTotal k (create isa fd par k) :=
+  cp_ge_every_instr_graph k hk _ (forwardEdges_create isa fd par k hk)
+    (create_nonnegWeights isa fd par k hst hlat hpar) (create_loadStagesAgree isa fd par k hk hkn) i hi
+
+-- non-vacuity: on the witness the chain 1 → 2 is genuine and attains the reported total; the
+-- multiply alone (latency 7) does not exceed it
+example :
+    let es := create .x86 false {} witness
+    witness ≠ [] ∧ ForwardEdges es ∧ (Chain.mk 1 [⟨1, 2, 3⟩]).Valid (infosOf witness) (wedgesOf es) ∧
+    (Chain.mk 1 [⟨1, 2, 3⟩]).len (infosOf witness) = cpTotal witness es ∧
+    (witness.map (·.lat)) = [7, 0] := by decide +kernel
+
+/-! ### the marking of the repaired code (`Model/CpMark.lean`): `cpPath` — the marked lines, found by
+    walking the predecessor pointers of the table back from the first line with the largest
+    `chain_length`; `cpMarks` — their `latency_cp` values.  `UniquePairs es`: each (source, target)
+    pair occurs once in `es`, as in a networkx graph (decidable; `dedupLast_nodup` for `create`). -/
+
+/-- **`cp_lines_form_chain`, graph-generic**: consecutive marked lines are linked by an edge of the
+    graph between their instruction nodes (no hypothesis at all); over a forward graph they are
+    strictly ascending; all of them are lines of the kernel. -/
+theorem cp_lines_form_chain_graph (k : List Ins) (es : List Edge) :
+    isPath es ((cpPath k es).map instrNode) = true ∧
+    (ForwardEdges es → (cpPath k es).Pairwise (· < ·)) ∧
+    (∀ l ∈ cpPath k es, l ∈ k.map (·.line)) ∧
+    (cpMarks k es).map (·.1) = cpPath k es :=
+  ⟨cpPath_isPath k es, cpPath_sorted k es, cpPath_lines k es, cpMarks_lines k es⟩
+
+/-- **`cp_lines_form_chain`**: on OSACA's dependency graph of a kernel with increasing lines, the
+    lines the repaired `get_critical_path` marks are lines of the kernel, strictly ascending, and each
+    is linked to the next by a dependency edge — they form a dependency chain. -/
+theorem cp_lines_form_chain (isa : Isa) (fd : Bool) (par : Params) (k : List Ins) (hk : WFKernel k) :
+    isPath (create isa fd par k) ((cpPath k (create isa fd par k)).map instrNode) = true ∧
+    (cpPath k (create isa fd par k)).Pairwise (· < ·) ∧
+    (∀ l ∈ cpPath k (create isa fd par k), l ∈ k.map (·.line)) ∧
+    (cpMarks k (create isa fd par k)).map (·.1) = cpPath k (create isa fd par k) :=
+  ⟨cpPath_isPath k _, cpPath_sorted k _ (forwardEdges_create isa fd par k hk), cpPath_lines k _,
+    cpMarks_lines k _⟩
+
+/-- **`cp_lines_sum`, graph-generic**: for every kernel with increasing lines and every edge list with
+    unique (source, target) pairs, the per-line CP latencies of the marked lines add up to the
+    reported total (the walk back reaches the start of the chain within the fuel). -/
+theorem cp_lines_sum_graph (k : List Ins) (hk : WFKernel k) (es : List Edge) (hu : UniquePairs es) :
+    ((cpMarks k es).map (·.2)).sum = cpTotal k es :=
+  cpMarks_sum k es (nodup_of_sorted _ hk) hu
+
+theorem uniquePairs_create (isa : Isa) (fd : Bool) (par : Params) (k : List Ins) :
+    UniquePairs (create isa fd par k) := dedupLast_nodup _
+
+/-- **`cp_lines_sum`**: on OSACA's dependency graph, for every kernel with increasing lines, the
+    `latency_cp` values the repaired `get_critical_path` writes to the marked lines add up to the
+    critical-path total (what `Summary.CriticalPath` sums). -/
+theorem cp_lines_sum (isa : Isa) (fd : Bool) (par : Params) (k : List Ins) (hk : WFKernel k) :
+    ((cpMarks k (create isa fd par k)).map (·.2)).sum = cpTotal k (create isa fd par k) :=
+  cp_lines_sum_graph k hk _ (uniquePairs_create isa fd par k)
+
+/-- **the marked lines are a longest chain** (`cp_marked_chain_is_longest`): the dependency chain
+    through the marked lines is a genuine chain of the property, its length — `lat` for a single
+    line, `loadStage i₁ + Σ w + lat iₙ` otherwise — is the sum of the per-line CP latencies, equals
+    the reported total, and no genuine chain is longer. -/
+theorem cp_marked_chain_is_longest (isa : Isa) (fd : Bool) (par : Params) (k : List Ins) (hk : WFKernel k)
+    (hkn : LoadsKnown k) (hst : NonnegStages k) (hlat : NonnegLats k) (hpar : NonnegParams par)
+    (hne : k ≠ []) :
+    (chainOf (create isa fd par k) ((cpPath k (create isa fd par k)).map instrNode)).Valid (infosOf k)
+      (wedgesOf (create isa fd par k)) ∧
+    (chainOf (create isa fd par k) ((cpPath k (create isa fd par k)).map instrNode)).len (infosOf k) =
+      cpTotal k (create isa fd par k) ∧
+    (∀ c : Chain, c.Valid (infosOf k) (wedgesOf (create isa fd par k)) →
+      c.len (infosOf k) ≤
+        (chainOf (create isa fd par k) ((cpPath k (create isa fd par k)).map instrNode)).len (infosOf k)) := by
+  have hfw := forwardEdges_create isa fd par k hk
+  have hnd : (k.map (·.line)).Nodup := nodup_of_sorted _ hk
+  have hpne : cpPath k (create isa fd par k) ≠ [] := cpPath_ne_nil k _ hne
+  have hlen : (chainOf (create isa fd par k) ((cpPath k (create isa fd par k)).map instrNode)).len
+      (infosOf k) = cpTotal k (create isa fd par k) := by
+    rw [← marksOf_sum_eq_len k _ hnd (create_loadStagesAgree isa fd par k hk hkn) _ hpne
+      (cpPath_lines k _), ← cpMarks_eq]
+    exact cp_lines_sum isa fd par k hk
+  refine ⟨?_, hlen, ?_⟩
+  · apply chainOf_valid k _ hfw _ (by simpa using hpne) (cpPath_isPath k _)
+    intro n hn
+    obtain ⟨l, hl, rfl⟩ := List.mem_map.mp hn
+    exact cpPath_lines k _ l hl
+  · intro c hv
+    rw [hlen]
+    exact cp_ge_every_chain isa fd par k hk hkn hst hlat hpar c hv
+
+/-- a kernel with ties and a zero-latency line: the chains 1 → 3 and 2 → 3 both have length 4 + 3, and
+    1 → 3 → 4 has the same length (line 4 has latency 0) -/
+def tieKernel : List Ins :=
+  [ mkIns 1 [] [r "xmm0"] [] 4 none false,
+    mkIns 2 [] [r "xmm1"] [] 4 none false,
+    mkIns 3 [r "xmm0", r "xmm1"] [r "xmm2"] [] 3 none false,
+    mkIns 4 [r "xmm2"] [r "xmm3"] [] 0 none false ]
+
+/-- the witness with a store of latency 1: the longest chain starts at the load stage of line 1 -/
+def loadChain : List Ins :=
+  [ mkIns 1 [.mem ⟨some ⟨[], Text.ofString "rax", false, false⟩, none, 1, none, false, false, [1]⟩, r "xmm1"]
+      [r "xmm0"] [] 7 (some 3) true,
+    mkIns 2 [r "xmm0"] [.mem ⟨some ⟨[], Text.ofString "rax", false, false⟩, none, 1, none, false, false, [1]⟩] [] 1 (some 1) false ]
+
+-- non-vacuity.  A chain starting at a load: line 1 gets load stage 4 + edge 3, line 2 its latency 1.
+example : WFKernel loadChain ∧ LoadsKnown loadChain ∧ NonnegStages loadChain ∧ NonnegLats loadChain ∧
+    UniquePairs (create .x86 false {} loadChain) ∧
+    cpPath loadChain (create .x86 false {} loadChain) = [1, 2] ∧
+    cpMarks loadChain (create .x86 false {} loadChain) = [(1, 7), (2, 1)] ∧
+    cpTotal loadChain (create .x86 false {} loadChain) = 8 := by decide +kernel
+-- On the old witness the multiply alone (7) ties with the chain 1 → 2 (4 + 3 + 0): as Python's `max`, the
+-- first maximal line wins and the path is the single line 1.
+example : cpPath witness (create .x86 false {} witness) = [1] ∧
+    cpMarks witness (create .x86 false {} witness) = [(1, 7)] ∧
+    cpTotal witness (create .x86 false {} witness) = 7 := by decide +kernel
+-- Ties between predecessors (first maximal candidate: line 1, not 2) and between end lines (3, not 4).
+example : WFKernel tieKernel ∧ LoadsKnown tieKernel ∧ NonnegStages tieKernel ∧ NonnegLats tieKernel ∧
+    cpPath tieKernel (create .x86 false {} tieKernel) = [1, 3] ∧
+    cpMarks tieKernel (create .x86 false {} tieKernel) = [(1, 4), (3, 3)] ∧
+    cpTotal tieKernel (create .x86 false {} tieKernel) = 7 := by decide +kernel
+-- No dependencies: the single slowest instruction; the empty kernel: nothing marked, total 0.
+example : cpMarks negLat [] = [(2, 5)] ∧ cpTotal negLat [] = 5 ∧ cpMarks [] [] = [] ∧
+    cpTotal [] [] = 0 := by decide +kernel
+
+/-- **`cp_no_deps`, repaired code**: without any dependency the repaired `get_critical_path` marks
+    exactly one instruction, with its own latency, and no instruction of the kernel is slower
+    (∀ non-empty kernels with increasing lines) -/
+theorem cp_no_deps_repaired (k : List Ins) (hk : WFKernel k) (hne : k ≠ []) :
+    ∃ i ∈ k, cpMarks k [] = [(i.line, i.lat)] ∧ cpTotal k [] = i.lat ∧ ∀ j ∈ k, j.lat ≤ i.lat := by
+  have hnd : (k.map (·.line)).Nodup := nodup_of_sorted _ hk
+  have hrows : ∀ r ∈ cpTable k [], r.longer = none := by
+    apply cpTable_forall
+    intro pre i post _ _
+    rfl
+  have hcl : ∀ j : Ins, chainLengthAt k (cpTable k []) j = j.lat := by
+    intro j
+    unfold chainLengthAt
+    cases hf : (cpTable k []).find? (·.line == j.line) with
+    | none => simp
+    | some r => simp [hrows r (List.mem_of_find?_eq_some hf)]
+  cases hl : cpLast k (cpTable k []) with
+  | none => exact absurd (cpLast_none k _ hl) hne
+  | some i =>
+    obtain ⟨hi, htot⟩ := cpLast_spec k [] i hl
+    have hq : ((cpTable k []).find? (·.line == i.line)).bind (fun r => r.longer.map (·.2)) = none := by
+      cases hf : (cpTable k []).find? (·.line == i.line) with
+      | none => rfl
+      | some r => simp [hrows r (List.mem_of_find?_eq_some hf)]
+    have hpath : cpPath k [] = [i.line] := by
+      unfold cpPath
+      simp only [hl, hq, cpBack_none]
+    have hlat : cpLatOf k i.line = i.lat := by
+      unfold cpLatOf
+      rw [find?_of_nodup_key (·.line) k hnd i hi]
+    refine ⟨i, hi, ?_, by rw [htot, hcl], ?_⟩
+    · simp [cpMarks, hpath, cpMarksFrom, hlat]
+    · intro j hj
+      rw [← hcl i, ← htot, cpTotal_eq_maxOr0]
+      refine le_trans (le_of_eq (hcl j).symm) (maxOr0_ge _ _ (List.mem_map.mpr ⟨j, hj, rfl⟩))
 
 end OsacaVerif.Props.C04
